@@ -32,7 +32,7 @@ theorem finalize_complete_core {s : St} (fails : List (Nat × Nat)) (hi : FinInv
       r'.states[i]? = some { st with finalized := true, finalizedAt := s.h } := by
   obtain ⟨hi', hfin⟩ := finalizeRollappStates_fin fails hi
   obtain ⟨failed', hfok, hempty⟩ := hfin (by omega)
-  obtain ⟨hh, hp, hrel⟩ := finalizeRollappStates_rel fails hi.nodup
+  obtain ⟨hh, hp, _, hrel⟩ := finalizeRollappStates_rel fails hi.nodup
   obtain ⟨r', hr', hid, hlen, hst'⟩ := hrel r hr
   have hg' : getRa (finalizeRollappStates s fails) r.id = some r' := by
     rw [← hid]; exact getRa_of_mem hi'.nodup hr'
@@ -154,7 +154,7 @@ theorem endBlock_newly {s : St} (fails : List (Nat × Nat)) (hi : FinInv s) {r r
     (hg' : getRa (endBlock s fails) r.id = some r') (hst' : r'.states[i]? = some st') (hf : st'.finalized = true) :
     st.creationHeight + s.p.dispute ≤ s.h ∧ st' = { st with finalized := true, finalizedAt := s.h } := by
   obtain ⟨hi1, _⟩ := finalizeRollappStates_fin fails hi
-  obtain ⟨hh, hp, hrel⟩ := finalizeRollappStates_rel fails hi.nodup
+  obtain ⟨hh, hp, _, hrel⟩ := finalizeRollappStates_rel fails hi.nodup
   obtain ⟨r1, hr1, hid, _, hs1⟩ := hrel r hr
   have hg1 : getRa (finalizeRollappStates s fails) r.id = some r1 := by
     rw [← hid]; exact getRa_of_mem hi1.nodup hr1
@@ -171,6 +171,37 @@ theorem endBlock_newly {s : St} (fails : List (Nat × Nat)) (hi : FinInv s) {r r
     have := (hi1.ras r1 hr1).notEarly st1 (List.mem_of_getElem? hst1) hf
     rw [hc, hp] at this
     exact this
+
+/-- backward form: every finalized state info after `EndBlock` was either finalized before (and is
+    unchanged), or was unfinalized with its dispute period elapsed and got finalized at this height -/
+theorem endBlock_back {s : St} (fails : List (Nat × Nat)) (hi : FinInv s) {r' : Rollapp}
+    (hg' : getRa (endBlock s fails) r'.id = some r') {i : Nat} {st' : SInfo} (hst' : r'.states[i]? = some st')
+    (hf : st'.finalized = true) :
+    ∃ r ∈ s.ras, r.id = r'.id ∧ ∃ st, r.states[i]? = some st ∧
+      ((st.finalized = true ∧ st' = st) ∨
+       (st.finalized = false ∧ st.creationHeight + s.p.dispute ≤ s.h ∧
+         st' = { st with finalized := true, finalizedAt := s.h })) := by
+  obtain ⟨hi1, _⟩ := finalizeRollappStates_fin fails hi
+  have hrel := finalizeRollappStates_rel fails hi.nodup
+  have := checkLiveness_finPart (finalizeRollappStates s fails) r'.id
+  unfold endBlock at hg'
+  rw [hg'] at this
+  cases hg1 : getRa (finalizeRollappStates s fails) r'.id with
+  | none => rw [hg1] at this; cases this
+  | some r1 =>
+    rw [hg1] at this
+    simp only [Option.map_some, Option.some.injEq, finPart, Prod.mk.injEq] at this
+    rw [this.1] at hst'
+    obtain ⟨r, hr, hid, hb⟩ := hrel.back hi1.nodup (getRa_mem hg1)
+    obtain ⟨st, hst, hc⟩ := hb i st' hst'
+    refine ⟨r, hr, hid.trans (getRa_id hg1), st, hst, ?_⟩
+    rcases hc with hc | ⟨hnf, hc⟩
+    · left; subst hc; exact ⟨hf, rfl⟩
+    · right
+      refine ⟨hnf, ?_, hc⟩
+      have := (hi1.ras r1 (getRa_mem hg1)).notEarly st' (List.mem_of_getElem? hst') hf
+      rw [hc, hrel.2.1] at this
+      exact this
 
 -- ---------------------------------------------------------------- isolation
 
